@@ -386,6 +386,24 @@ class Export(object):
                 # original dataset, we also create a new basin that
                 # refers to the original dataset itself.
                 basin_list = [bn.as_dict() for bn in ds.basins]
+                if ds.format == "hierarchy":
+                    # The basins of a hierarchy child are the basins of its
+                    # root parent, i.e. their mapping refers to the events
+                    # of the root parent. Convert them to mapped basins that
+                    # refer to the events of the hierarchy child.
+                    from .fmt_hierarchy import map_indices_child2root
+                    root_ids = map_indices_child2root(
+                        child=ds,
+                        child_indices=np.arange(len(ds))
+                    )
+                    for bn_dict in basin_list:
+                        if bn_dict.get("basin_type") == "internal":
+                            continue
+                        basinmap_root = bn_dict.get("basin_map")
+                        if basinmap_root is None:
+                            bn_dict["basin_map"] = root_ids
+                        else:
+                            bn_dict["basin_map"] = basinmap_root[root_ids]
                 # In addition to the upstream basins, also store a reference
                 # to the original file from which the export was done.
                 if ds.format in get_basin_classes():
